@@ -23,7 +23,7 @@ from crosshair.libimpl.builtinslib import (ModelingDirector, RealBasedSymbolicFl
                                            SymbolicBoundedIntTuple, SymbolicBytes)
 from crosshair.core import suspected_proxy_intolerance_exception
 
-from .api import (Draws, HarnessError, LogTrap, Reached, Violation, install_logtrap, jsonable)
+from .api import (Draws, HarnessError, LogTrap, Reached, Violation, install_logtrap, jsonable, raised_in_harness)
 
 from . import sx_stubs, sx_bitops
 sx_stubs.install()
@@ -206,6 +206,10 @@ def explore(fn, params, budget=60.0, path_timeout=60.0, twin=False, known=None,
                         if isinstance(e, TypeError) and suspected_proxy_intolerance_exception(e):
                             ended_by_cf = True
                             raise UnexploredPath("proxy intolerance: %r" % (e,))
+                        if raised_in_harness(e):
+                            # the harness itself tripped over the library's shape: inconclusive, never a violation
+                            ended_by_cf = True
+                            raise UnexploredPath("harness tripped: %s: %s" % (type(e).__name__, str(e)[:60]))
                     # anything else escaping the harness: reported as a violation of kind
                     # escaped-exception (it counts only if it reproduces under plain replay)
                     raised = Violation("escaped-exception", exc=type(e).__name__,
